@@ -834,36 +834,55 @@ Proof.
 Qed.
 
 (* ---------------------------------------------------------------- HandleZRLE *)
+(* which inflate stream of the client takes ZRLE blocks: its own (fix 11) or the one shared with the Zlib encoding *)
+Definition zrle_fresh (s : cst) : bool := if fixed s 11 then negb (c_zrlez s) else negb (zact_get s 0).
+Definition zrle_mark (s : cst) : cst := if fixed s 11 then set_zrlez s true else zact_set s 0 true.
+
+Lemma rd_zrle_stream_ok s fresh data ts : fresh = zrle_fresh s ->
+  rd_zrle_stream s (TZ 5 fresh true data :: ts) = Ok (true, map (fun b => b mod 256) data) (zrle_mark s) ts.
+Proof.
+  intros ->. unfold rd_zrle_stream, rd_zblock, bind, get_st, upd_st, ret, zrle_fresh, zrle_mark. cbn [negb Z.eqb Pos.eqb].
+  destruct (fixed s 11).
+  - destruct (c_zrlez s); reflexivity.
+  - destruct (zact_get s 0); reflexivity.
+Qed.
+
+Lemma zrle_mark_same s : c_w (zrle_mark s) = c_w s /\ c_h (zrle_mark s) = c_h s /\ c_fb (zrle_mark s) = c_fb s.
+Proof. unfold zrle_mark. destruct (fixed s 11); repeat split; reflexivity. Qed.
+
 Theorem roundtrip_zrle ch s x y w h tgt ts fresh :
   st_wf s -> cp_agree (c_fmt s) (variant_of s) -> fixed s 8 = true ->
   0 <= x -> 0 <= y -> 0 <= w -> 0 <= h -> x + w <= c_w s -> y + h <= c_h s ->
   rows_wf w h tgt -> Forall (Forall (cp_ok (variant_of s))) tgt ->
-  fresh = negb (zact_get s 0) ->
+  fresh = zrle_fresh s ->
   let minsz := w * h * rbytes (variant_of s) * 2 + 4 in
   let cap := if c_rawsz s <? minsz then minsz else c_rawsz s in
   (* the scratch area must hold the tile stream: known finding C07-F2 when it does not *)
   zlen (tiles_rows ch 0 (c_fmt s) false 64 (Z.to_nat (h / 64 + 1)) 0 w h tgt 0 []) <= cap - 4 ->
   dec_zrle x y w h s (ref_zrle ch (c_fmt s) fresh w h tgt ++ ts)
-  = Ok tt (set_fb (zact_set (set_rawsz s cap) 0 true) (blit_spec (c_fb s) x y tgt)) ts.
+  = Ok tt (set_fb (zrle_mark (set_rawsz s cap)) (blit_spec (c_fb s) x y tgt)) ts.
 Proof.
   intros Hs Hag F8 Hx Hy Hw Hh Hxw Hyh Ht Hp Hfresh minsz cap Hfit.
   unfold dec_zrle, ref_zrle. cbn [app].
   erewrite bind_ok; [|reflexivity]. rewrite F8. cbv zeta. fold minsz. fold cap.
   erewrite bind_ok; [|reflexivity].
-  erewrite bind_ok; [|apply rd_stream_ok; exact Hfresh].
+  erewrite bind_ok; [|apply rd_zrle_stream_ok; exact Hfresh].
   set (data := tiles_rows ch 0 (c_fmt s) false 64 (Z.to_nat (h / 64 + 1)) 0 w h tgt 0 []) in *.
   assert (Hdata : Forall byte_ok data) by (apply (zrows_bytes_ok ch (c_fmt s) (variant_of s) _ Hag); auto; lia).
   rewrite map_mod_id by exact Hdata. cbn [negb].
   destruct (Z.ltb_spec (cap - 4) (zlen data)); [lia|].
-  set (s1 := zact_set (set_rawsz s cap) 0 true).
-  assert (Hs1 : st_wf s1) by (eapply st_wf_ext; [| | |exact Hs]; reflexivity).
+  set (s1 := zrle_mark (set_rawsz s cap)).
+  assert (Hs1 : st_wf s1) by (destruct (zrle_mark_same (set_rawsz s cap)) as (A & B & C); eapply st_wf_ext; [exact A|exact B|exact C|exact Hs]).
   assert (Hcf : h - 0 <= 64 * Z.of_nat (Z.to_nat (h / 64 + 1))).
   { pose proof (Z.div_mod h 64 ltac:(lia)). pose proof (Z.mod_pos_bound h 64 ltac:(lia)).
     assert (0 <= h / 64) by (apply Z.div_pos; lia). lia. }
+  assert (Esm : c_w s1 = c_w s /\ c_h s1 = c_h s /\ c_fb s1 = c_fb s).
+  { unfold s1, zrle_mark. destruct (fixed (set_rawsz s cap) 11); repeat split; reflexivity. }
+  destruct Esm as (E1 & E2 & E3).
   pose proof (zrows_ok ch (c_fmt s) (variant_of s) (Z.to_nat (h / 64 + 1)) Hag 0 s1 x y w h tgt 0 0 [] [] 0 cap ts
-                Hs1 Hx Hy ltac:(lia) Hw Hh Hxw Hyh Ht Hp Hcf ltac:(lia)) as E.
+                Hs1 Hx Hy ltac:(lia) Hw Hh ltac:(rewrite E1; exact Hxw) ltac:(rewrite E2; exact Hyh) Ht Hp Hcf ltac:(lia)) as E.
   fold data in E. rewrite app_nil_r in E.
   change (h / cZRLETileHeight + 1) with (h / 64 + 1).
-  rewrite E by lia.
+  rewrite E by lia. rewrite E3.
   replace (y + 0) with y by lia. replace (Z.max 0 (h - 0)) with h by lia. rewrite sub_block_all by assumption. reflexivity.
 Qed.
